@@ -2,7 +2,8 @@
    Only statements, each closed by `exact`, each followed by Print Assumptions.
    `N` is any number instance (rounding + exact operations), `P` any program. *)
 From Coq Require Import ZArith List Bool String.
-From FpyV Require Import Num.RealFloat Num.Float Num.CtxDef Lang.Syntax Lang.Values Lang.Sem Lang.SemProps.
+From FpyV Require Import Num.RealFloat Num.Float Num.CtxDef Lang.Syntax Lang.Values Lang.Sem Lang.SemProps
+  Lang.SemMono Lang.NumInst Lang.PyIR Lang.Compile Lang.CompileProofs Lang.CompileCorrect Lang.HelperProofs.
 Import ListNotations.
 Open Scope Z_scope.
 
@@ -67,3 +68,126 @@ Theorem C04_no_entry_rounding : forall xs vs s s',
   forall i x v, nth_error xs i = Some x -> nth_error vs i = Some v -> env_get s' x = Some v.
 Proof. exact bind_params_exact. Qed.
 Print Assumptions C04_no_entry_rounding.
+
+(* ------------------------------------------------------------------ the compile scheme *)
+(* with_restores_ctx: in the mini-Python IR where `__ctx__` is an ordinary mutable
+   local and `with` is compiled to stash / try / finally-restore (BytecodeCompiler.
+   _visit_context), the local holds its previous value after the compiled `with`
+   for EVERY outcome of the block: normal, `return` (from any depth of loops),
+   exception. *)
+Theorem C04_with_restores_ctx : forall N P k x e body pst k' ps mu o mu',
+  compile_stmt k (SContext x e body) = (pst, k') ->
+  pyrel N P ps mu pst o mu' ->
+  p_ctx (state_of o) = p_ctx ps.
+Proof. exact with_restores_ctx. Qed.
+Print Assumptions C04_with_restores_ctx.
+
+(* the hypotheses are satisfiable, and the same statement WITHOUT the finally leaks *)
+Theorem C04_with_restores_example : forall N P,
+  exists o mu',
+    pyrel N P (PS [] (VCtx FP64) []) [] (fst (compile_stmt O (SContext None (ECtxVal CReal) []))) o mu' /\
+    p_ctx (state_of o) = VCtx FP64.
+Proof. exact with_restores_example. Qed.
+Print Assumptions C04_with_restores_example.
+
+Theorem C04_with_norestore_leaks : forall N P,
+  exists ps mu o mu',
+    pyrel N P ps mu (compile_with_norestore O None (ECtxVal CReal) []) o mu' /\
+    p_ctx (state_of o) <> p_ctx ps.
+Proof. exact with_norestore_leaks. Qed.
+Print Assumptions C04_with_norestore_leaks.
+
+(* compile_correct (statement core; expressions abstracted as "evaluates like the
+   source expression under the context stored in the local"): every outcome the
+   documented semantics assigns to a function body under context C is an outcome
+   of the compiled body started with `__ctx__` = C — same returned value, same
+   variables, same store, and `__ctx__` = C again on normal completion.
+   Partial: the error outcomes (RErr) of the source semantics are not covered. *)
+Theorem C04_compile_correct_partial : forall N P n s mu C b o mu',
+  exec_block N P n s mu C b = ROk (o, mu') ->
+  exists po, pyrel_block N P (init_pstate s C) mu (fst (compile_block O b)) po mu' /\ sim_out C o po.
+Proof. exact compile_correct. Qed.
+Print Assumptions C04_compile_correct_partial.
+
+(* ------------------------------------------------------------------ fuel *)
+Theorem C04_run_fuel_monotone : forall N P n m f args caller c,
+  run N P n f args caller = ROk c -> (n <= m)%nat -> run N P m f args caller = ROk c.
+Proof. exact run_mono. Qed.
+Print Assumptions C04_run_fuel_monotone.
+
+Theorem C04_exec_fuel_monotone : forall N P n m s mu C st r,
+  exec N P n s mu C st = r -> r <> RFuel -> (n <= m)%nat -> exec N P m s mu C st = r.
+Proof. exact exec_mono. Qed.
+Print Assumptions C04_exec_fuel_monotone.
+
+(* ------------------------------------------------------------------ run-time helpers *)
+Theorem C04_negative_index_rejected : forall z, z < 0 -> cvt_index (VNum (num_of_Z z)) = RErr IndexErr.
+Proof. exact negative_index_rejected. Qed.
+Print Assumptions C04_negative_index_rejected.
+
+Theorem C04_index_past_end_rejected : forall vs i, (List.length vs <= i)%nat -> list_nth vs i = RErr IndexErr.
+Proof. exact index_past_end_rejected. Qed.
+Print Assumptions C04_index_past_end_rejected.
+
+Theorem C04_slice_strict : forall vs a b r,
+  list_slice vs (ZV a) (ZV b) = ROk r ->
+  0 <= a /\ a <= b /\ b <= Z.of_nat (List.length vs) /\ Z.of_nat (List.length r) = b - a.
+Proof. exact slice_strict. Qed.
+Print Assumptions C04_slice_strict.
+
+Theorem C04_slice_out_of_range : forall vs a b,
+  a < 0 \/ b > Z.of_nat (List.length vs) \/ a > b -> list_slice vs (ZV a) (ZV b) = RErr IndexErr.
+Proof. exact slice_out_of_range. Qed.
+Print Assumptions C04_slice_out_of_range.
+
+Theorem C04_zip_strict : forall ls r,
+  zip_lists ls = ROk r -> forall l, In l ls -> List.length l = List.length r.
+Proof. exact zip_strict. Qed.
+Print Assumptions C04_zip_strict.
+
+Theorem C04_zip_ragged_rejected : forall l0 l rest,
+  In l rest -> List.length l <> List.length l0 -> zip_lists (l0 :: rest) = RErr ValueErr.
+Proof. exact zip_ragged_rejected. Qed.
+Print Assumptions C04_zip_ragged_rejected.
+
+Theorem C04_minmax_nan_propagates : forall N is_max xs x,
+  In x xs -> num_isnan x = true -> exists y, minmax N is_max xs = ROk y /\ num_isnan y = true.
+Proof. exact minmax_nan_propagates. Qed.
+Print Assumptions C04_minmax_nan_propagates.
+
+Theorem C04_min_zero_tie : minmax prov_numops false [pz; nz] = ROk nz /\ minmax prov_numops false [nz; pz] = ROk nz.
+Proof. exact min_zero_tie. Qed.
+Print Assumptions C04_min_zero_tie.
+
+Theorem C04_max_zero_tie : minmax prov_numops true [pz; nz] = ROk pz /\ minmax prov_numops true [nz; pz] = ROk pz.
+Proof. exact max_zero_tie. Qed.
+Print Assumptions C04_max_zero_tie.
+
+Theorem C04_sum_empty_exact : forall N C, sum_list N C [] = ROk num_zero.
+Proof. exact sum_empty. Qed.
+Print Assumptions C04_sum_empty_exact.
+
+Theorem C04_sum_left_fold : forall N C x y r,
+  sum_list N C (VNum x :: VNum y :: r) =
+  rbind (lift (n_binop N OAdd C x y)) (fun a => sum_from N C a r).
+Proof. exact sum_step. Qed.
+Print Assumptions C04_sum_left_fold.
+
+Theorem C04_and_short_circuit : forall N P n s mu C e r mu1,
+  eval N P n s mu C e = ROk (VBool false, mu1) ->
+  bool_chain N P (S n) s mu C true (e :: r) = ROk (VBool false, mu1).
+Proof. exact and_short_circuit. Qed.
+Print Assumptions C04_and_short_circuit.
+
+Theorem C04_or_short_circuit : forall N P n s mu C e r mu1,
+  eval N P n s mu C e = ROk (VBool true, mu1) ->
+  bool_chain N P (S n) s mu C false (e :: r) = ROk (VBool true, mu1).
+Proof. exact or_short_circuit. Qed.
+Print Assumptions C04_or_short_circuit.
+
+Theorem C04_compare_chain_stops : forall N P n s mu C x y o ops e args mu1,
+  is_ordering o = true -> cmp_test N o x y = false ->
+  eval N P n s mu C e = ROk (VNum y, mu1) ->
+  cmp_chain N P (S n) s mu C (VNum x) (o :: ops) (e :: args) = ROk (VBool false, mu1).
+Proof. exact compare_chain_stops. Qed.
+Print Assumptions C04_compare_chain_stops.
